@@ -22,11 +22,16 @@ CFG = {
     "rule": "quick: every gate value at every gate position (5 executable names x 13 buildpack.toml states x 0..4 arguments x 8 variable "
             "sets, later dimensions at a representative value, twice: passing and failing buildpack), context inputs (cwd x platform dir x "
             "buildpack plan x 8 variable sets x 3 names), copy instead of symlink; with all gates open the full product detect behaviour "
-            "(4) x pre-existing plan (absent/file/dir) x optional variable x platform x descriptor validity, build behaviour (16 subsets of "
-            "launch/store/build-SBOMs/launch-SBOMs, error, layer error) x launch.toml (3) x store.toml (4) x SBOM files (2x2; thorough 8x8), "
-            "all 8x8 SBOM format sets x 4 pre-states, 600 random result lists with repeated formats and blocked paths, 1200 random draws "
-            "from the whole product. thorough: additionally the literal product executable name (3) x argument count (5) x buildpack.toml "
-            "class (8) x presence of each of the 6 CNB_* variables (64) x behaviour (4 / 18) x pre-existing outputs (none / all). "
+            "(6: pass, pass+plan normal/empty/other-shape, fail, error) x pre-existing plan (absent/file/dir) x optional variable x platform x "
+            "descriptor validity, build behaviour (launch and store each absent / normal / EMPTY document / other shape, build and launch SBOM "
+            "sets with normal, empty and binary data: 64 results + error + layer error) x launch.toml (3) x store.toml (4) x SBOM files (2x2; "
+            "thorough 8x8), all 8x8 SBOM format sets with rotating data kinds x 4 pre-states, 600 random result lists (<= 8 items of 20 kinds: "
+            "repeated launch/store = the builder replaces, repeated formats, blocked paths), target variables set to the empty string, 1200 "
+            "random draws from the whole product. Every payload exists in three variants (normal / empty-minimal: BuildPlan::new(), "
+            "Launch::default(), Store with empty metadata, SBOM without bytes / other shape) and the observation tells untouched (old content) "
+            "from written-with-the-empty-document. thorough: additionally the literal product executable name (3) x argument count (5) x "
+            "buildpack.toml class (8) x presence of each of the 6 CNB_* variables (64) x behaviour (6 / 18, payload variants rotating) x "
+            "pre-existing outputs (none / all). "
             "non-trivial = all gates open (the phase function is reached and the behaviour decides the outcome); distinct = distinct input line",
     "trusted_base": ["Spec/RuntimeTable.lean is my reading of the property text and of buildpack.md (argument counts, exit 100)",
                      "Gen.exit_* regenerated from libcnb/src/exit_code.rs, Gen.supportedApi from libcnb/src/lib.rs",
